@@ -244,9 +244,9 @@ func genContention(r *kit.Rand, id int, calls int) Case {
 // C consumers park in Wait / Receive on an empty queue (the "before-cond-wait" yield point tells
 // the driver that each of them is about to park; the Adds below cannot get the mutex before the
 // last one has parked), then ONE goroutine adds C items.  Every consumer must return an item
-// within its 10 s deadline: doAdd signals nempty only on the 0 -> 1 transition, the remaining
+// within 10 s of the last Add: doAdd signals nempty only on the 0 -> 1 transition, the remaining
 // consumers rely on being woken by the returning one.  Deterministic on the unchanged tree;
-// a consumer that reports its deadline although an item was queued for it is
+// a consumer still blocked after that grace period although an item is queued for it is
 // C05:Queue.Wait:stuck.
 func runWake(run *kit.Run, c Case, verbose bool) {
 	q, err := newQueue(c.Cfg)
@@ -262,9 +262,12 @@ func runWake(run *kit.Run, c Case, verbose bool) {
 	})
 	defer pubsub.SetVerifYieldHook(nil)
 
-	ctx, cancel := context.WithTimeout(context.Background(), 10*time.Second)
+	// no deadline on the consumers' context: the driver decides "stuck" after a 10 s grace period
+	// and only then cancels (a consumer released by its own deadline would still find the item)
+	ctx, cancel := context.WithCancel(context.Background())
 	defer cancel()
 	res := make([]Res, c.C)
+	var returned atomic.Int32
 	var wg sync.WaitGroup
 	for k := 0; k < c.C; k++ {
 		wg.Add(1)
@@ -275,6 +278,7 @@ func runWake(run *kit.Run, c Case, verbose bool) {
 				op = "Receive"
 			}
 			res[k] = apply(q, d, ctx, Op{Op: op})
+			returned.Add(1)
 		}(k)
 	}
 	deadline := time.Now().Add(10 * time.Second)
@@ -286,11 +290,16 @@ func runWake(run *kit.Run, c Case, verbose bool) {
 	for i := 0; i < c.C; i++ {
 		addRes[i] = apply(q, d, ctx, Op{Op: "Add", V: int64(100 + i)})
 	}
-	wg.Wait()
+	grace := time.Now().Add(10 * time.Second)
+	for int(returned.Load()) < c.C && time.Now().Before(grace) {
+		time.Sleep(200 * time.Microsecond)
+	}
+	stuck := c.C - int(returned.Load()) // still blocked 10 s after the last Add returned
 	left := q.Len()
+	cancel()
+	wg.Wait()
 
 	got := map[int64]bool{}
-	stuck := 0
 	for k, r := range res {
 		switch {
 		case r.K == "item":
@@ -299,7 +308,7 @@ func runWake(run *kit.Run, c Case, verbose bool) {
 			}
 			got[r.V] = true
 		case r.K == "err" && r.E == "ctx":
-			stuck++
+			// released by the driver's cancel after the grace period (counted in stuck)
 		default:
 			run.OracleFail(c.ID, "C05:Queue.Wait:unexpected-result", fmt.Sprintf("parked consumer %d returned %s", k, r), c, res)
 		}
@@ -310,7 +319,7 @@ func runWake(run *kit.Run, c Case, verbose bool) {
 		}
 	}
 	if allParked && stuck > 0 {
-		run.OracleFail(c.ID, "C05:Queue.Wait:stuck", fmt.Sprintf("%d of %d consumers parked in Wait/Receive were still blocked at their 10 s deadline although %d items had been added for them (Len() = %d afterwards)", stuck, c.C, c.C, left), c, res)
+		run.OracleFail(c.ID, "C05:Queue.Wait:stuck", fmt.Sprintf("%d of %d consumers parked in Wait/Receive were still blocked 10 s after %d items had been added for them (Len() = %d at that moment)", stuck, c.C, c.C, left), c, res)
 	}
 	if verbose {
 		fmt.Printf("wake C=%d: all parked=%v results=%v left=%d\n", c.C, allParked, res, left)
